@@ -58,6 +58,7 @@ def optEff (F : Eff → Nat) (pid : Option Str) (nid : Id) : Nat :=
 /-- the class of an untyped / typed creation under the permissive metamodel `MM.free dflt` -/
 def classFor (dflt : List (Str × Str)) (attr : Str) (ty : Option Str) : Str :=
   match ty with
+  | some [] => (dflt.lookup attr).getD attr
   | some t => t
   | none => (dflt.lookup attr).getD attr
 
@@ -141,7 +142,10 @@ theorem staticCls_free (dflt : List (Str × Str)) : StaticCls (MM.free dflt) (cl
   simp only [createClass, ne_eq, not_true_eq_false, false_and, ↓reduceIte] at hc
   cases ty with
   | none => simp [Creator.classFor] at hc; simp [classFor, hc]
-  | some t => simp [Creator.classFor, MM.free] at hc; simp [classFor, hc]
+  | some t =>
+    cases t with
+    | nil => simp [Creator.classFor] at hc; simp [classFor, hc]
+    | cons a t' => simp [Creator.classFor, MM.free] at hc; simp [classFor, hc]
 
 theorem cls_eq {mm sc F} (h : StaticCls mm sc ∨ ClsBlind F) {g par attr cr sg fx ty cls}
     (hk : checkTarget mm g par attr = .ok (cr, sg, fx)) (hc : createClass mm g par attr cr fx ty = .ok cls) (i : Id) :
